@@ -1083,6 +1083,14 @@ def _process_add_event_tick(
     for step_name, step_config in state.config.steps.items():
         wait_conditions = state.workers[step_name].collected_waiters
         for wait_condition in wait_conditions:
+            # Only a pending waiter can be resumed: one that already has its event
+            # or has timed out is waiting for its step replay to consume it.
+            if wait_condition.resolved_event is not None or wait_condition.timed_out:
+                continue
+            # After a resume, requirements are empty until the step replays up to its
+            # wait_for_event call (see rehydrate_with_ticks); nothing can be matched yet.
+            if wait_condition.has_requirements and not wait_condition.requirements:
+                continue
             is_match = type(tick.event) is wait_condition.waiting_for_event
             is_match = is_match and all(
                 getattr(tick.event, k, None) == v
